@@ -45,8 +45,8 @@ def standard(pid, tier, seed, collect, trusted, search_script, search_spec, thor
         res.violations.append({"obligation": names[0], "replay": path, "input_found": ok})
     if extra_quick:
         extra_quick(res)
-    if tier == "thorough" and search_script:
-        spec = thorough_spec or search_spec
+    if tier == "thorough" and search_script and thorough_spec is not None:
+        spec = thorough_spec
         out = driver.harness_json(search_script, "search", spec, timeout=6000)
         res.bounded.append({"what": "bounded stand-in / contract cross-check on the real code (never counted as proved): " + bounded_text,
                             "bound": json.dumps(spec), "evaluations": out.get("evaluations", 0),
